@@ -304,6 +304,20 @@ let str_vis (v : vis) : string = match v with
   | VResult r -> "ret " ^ str_result r
 
 
+(* Look-ahead used to prune batch compositions (sound: it only drops compositions that the
+   following events would reject anyway): every batch that holds write requests ends its
+   writes with a sync, so the number of its requests with data equals the number of
+   consecutive successful `w write` events that come next in the log. [None]: no hint. *)
+let recv_hint : int option ref = ref None
+let batch_fits (z' : sys2) : bool =
+  match !recv_hint with
+  | None -> true
+  | Some n ->
+    (match z'.z_w.w_batch with
+     | Some b when b.b_writes <> [] ->
+       List.length (List.filter (fun w -> w.ww_data <> []) b.b_writes) = n
+     | _ -> true)
+
 (* all (state, visible event) pairs the worker can reach next through silent steps;
    [ok] is the result of the system call if the visible event is one *)
 let rec worker_next (z : sys2) (ok : bool) (depth : int) : (sys2 * vis) list =
@@ -324,7 +338,7 @@ let rec worker_next (z : sys2) (ok : bool) (depth : int) : (sys2 * vis) list =
         List.iter (fun nf ->
             match zstep z (ZRecv (nat_of_int k, nf)) with
             | None -> ()
-            | Some (z', _) -> res := !res @ worker_next z' ok (depth + 1)) [true; false]
+            | Some (z', _) -> if batch_fits z' then res := !res @ worker_next z' ok (depth + 1)) [true; false]
       done;
       !res
 
@@ -393,15 +407,16 @@ let worker_quiesce (z : sys2) : sys2 list =
               List.iter (fun nf ->
                   match zstep z (ZRecv (nat_of_int k, nf)) with
                   | None -> ()
-                  | Some (z', _) -> go z' (depth + 1)) [true; false]
+                  | Some (z', _) -> if batch_fits z' then go z' (depth + 1)) [true; false]
             done
           end
     end in
   go z 0; List.rev !out
 
-(* The real worker never rests between two visible events: after each of them it runs
+(* The real worker does not rest between two visible events: after each of them it runs
    on (silent steps, and receiving the next batch if requests are queued) until it is
-   about to perform the next visible event or is idle. All ways of doing so: *)
+   about to perform the next visible event or is idle. All ways of doing so (plus, when
+   requests are queued for an idle worker, the state in which it has not yet woken up): *)
 let advance (z : sys2) : sys2 list =
   let seen = Hashtbl.create 16 in
   let out = ref [] in
@@ -421,12 +436,15 @@ let advance (z : sys2) : sys2 list =
         | None ->
           if z.z_queue = [] then out := z :: !out
           else begin
+            (* normally the worker picks the queue up at once; under CPU pressure it may
+               not have been scheduled yet: keep the state in which it has not *)
+            out := z :: !out;
             let qlen = List.length z.z_queue in
             for k = qlen downto 0 do
               List.iter (fun nf ->
                   match zstep z (ZRecv (nat_of_int k, nf)) with
                   | None -> ()
-                  | Some (z', _) -> go z' (depth + 1)) [true; false]
+                  | Some (z', _) -> if batch_fits z' then go z' (depth + 1)) [true; false]
             done
           end
     end in
@@ -445,9 +463,23 @@ let replay_all (z0 : sys2) (evs : (int * string) list) : string =
   let frontier = ref [(z0, None)] in
   let result = ref None in
   let stop msg = result := Some msg; raise Exit in
+  let evarr = Array.of_list (List.map snd evs) in
+  let nev = Array.length evarr in
+  let run_from = Array.make (nev + 1) None in
+  for i = nev - 1 downto 0 do
+    let e = evarr.(i) in
+    run_from.(i) <-
+      (if not (starts_with e "w ") then run_from.(i + 1)
+       else if starts_with e "w write " then
+         (if String.length e >= 4 && String.sub e (String.length e - 4) 4 = "fail" then None
+          else (match run_from.(i + 1) with Some n -> Some (n + 1) | None -> None))
+       else Some 0)
+  done;
   (try
      let pending_open = ref None in
-     List.iter (fun (i, e) ->
+     List.iteri (fun pos (i, e) ->
+         let hint_now = run_from.(pos) and hint_after = run_from.(pos + 1) in
+         recv_hint := hint_after;
          let fail msg = stop (Printf.sprintf "mismatch: event %d `%s`: %s" i (trunc_str e 160) msg) in
          let alive = List.exists (fun (z, _) -> z.z_w.w_alive) !frontier in
          if (not alive) && not (starts_with e "c end") then begin
@@ -521,7 +553,9 @@ let replay_all (z0 : sys2) (evs : (int * string) list) : string =
                        | _ -> List.rev acc) in
                    (z, w) :: go z []) !frontier in
              List.concat_map (fun (z, w) ->
+                 recv_hint := hint_now;
                  let all = worker_next z ok 0 in
+                 recv_hint := hint_after;
                  let cs = List.filter (fun (_, v) -> str_vis v = e) all in
                  if cs = [] then note ("model worker could: [" ^ String.concat " | " (List.map (fun (_, v) -> str_vis v) all) ^ "]");
                  List.concat_map (fun (z', _) -> List.map (fun x -> (x, w)) (advance z')) cs) pre
